@@ -10,6 +10,7 @@ import (
 	"net"
 	"runtime"
 	"strconv"
+	"sync"
 	"time"
 
 	"github.com/Jigsaw-Code/outline-ss-server/service"
@@ -239,4 +240,129 @@ func runC12PacketTrace(ops []c12Op) (trace []string, finalLost []int, findings [
 		}
 	}
 	return
+}
+
+// c12PacketConcurrentReads: several goroutines read from ONE handle of a shared packet listener at
+// the same time while datagrams arrive back to back. Every ReadFrom result must be one datagram as
+// it was sent — length, source address and content belong together — and no datagram is returned
+// twice (datagrams may be lost under load: that is UDP).
+func c12PacketConcurrentReads(ctx *Ctx) {
+	mgr := service.NewListenerManager()
+	addr := fmt.Sprintf("127.0.0.1:%d", freeLowPorts(1))
+	h, err := mgr.ListenPacket(addr)
+	if err != nil {
+		ctx.Monitor("C12/harness", "ListenPacket: "+err.Error(), nil)
+		return
+	}
+	perSender := 3000
+	if ctx.Thorough() {
+		perSender = 30000
+	}
+	const senders, readers = 2, 8
+	size := func(s, q int) int { return 12 + (q*37+s*11)%900 }
+	fill := func(s, q, i int) byte { return byte(q*7 + s*3 + i) }
+	var conns []*net.UDPConn
+	ports := map[int]int{}
+	for s := 0; s < senders; s++ {
+		c, err := net.Dial("udp", addr)
+		if err != nil {
+			h.Close()
+			return
+		}
+		conns = append(conns, c.(*net.UDPConn))
+		ports[c.LocalAddr().(*net.UDPAddr).Port] = s
+	}
+	var mu sync.Mutex
+	seen := map[[2]int]int{}
+	var bad []string
+	var rwg sync.WaitGroup
+	for r := 0; r < readers; r++ {
+		rwg.Add(1)
+		go func() {
+			defer rwg.Done()
+			buf := make([]byte, 2048)
+			for {
+				n, from, err := h.ReadFrom(buf)
+				if err != nil {
+					return
+				}
+				var s, q int
+				msg := ""
+				if k, _ := fmt.Sscanf(string(buf[:min(n, 24)]), "S%d#%d|", &s, &q); k != 2 || s < 0 || s >= senders || q < 0 || q >= perSender {
+					msg = fmt.Sprintf("ReadFrom returned %d bytes that are no datagram of this scenario (start %q)", n, string(buf[:min(n, 12)]))
+				} else if n != size(s, q) {
+					msg = fmt.Sprintf("ReadFrom returned n=%d for datagram %d of sender %d, which has %d bytes", n, q, s, size(s, q))
+				} else if ua, ok := from.(*net.UDPAddr); !ok || ports[ua.Port] != s || ua.Port != conns[s].LocalAddr().(*net.UDPAddr).Port {
+					msg = fmt.Sprintf("datagram %d of sender %d was returned with the source address %v", q, s, from)
+				} else {
+					hdr := len(fmt.Sprintf("S%d#%d|", s, q))
+					for i := hdr; i < n; i++ {
+						if buf[i] != fill(s, q, i) {
+							msg = fmt.Sprintf("datagram %d of sender %d: byte %d of %d differs from what was sent", q, s, i, n)
+							break
+						}
+					}
+				}
+				mu.Lock()
+				if msg != "" {
+					if len(bad) < 5 {
+						bad = append(bad, msg)
+					}
+				} else {
+					seen[[2]int{s, q}]++
+				}
+				mu.Unlock()
+			}
+		}()
+	}
+	var swg sync.WaitGroup
+	for s := 0; s < senders; s++ {
+		swg.Add(1)
+		go func(s int) {
+			defer swg.Done()
+			for q := 0; q < perSender; q++ {
+				n := size(s, q)
+				p := make([]byte, n)
+				hdr := fmt.Sprintf("S%d#%d|", s, q)
+				copy(p, hdr)
+				for i := len(hdr); i < n; i++ {
+					p[i] = fill(s, q, i)
+				}
+				conns[s].Write(p)
+				if q%64 == 63 {
+					time.Sleep(time.Millisecond) // keep the loss moderate
+				}
+			}
+		}(s)
+	}
+	swg.Wait()
+	time.Sleep(150 * time.Millisecond)
+	h.Close()
+	done := make(chan struct{})
+	go func() { rwg.Wait(); close(done) }()
+	select {
+	case <-done:
+	case <-time.After(3 * time.Second):
+		ctx.Monitor("C12/call-never-returned:ReadFrom", "concurrent ReadFrom calls on a handle were still blocked 3 s after its Close", nil)
+	}
+	for _, c := range conns {
+		c.Close()
+	}
+	mu.Lock()
+	defer mu.Unlock()
+	dups := 0
+	for _, k := range seen {
+		if k > 1 {
+			dups++
+		}
+	}
+	ctx.CountN("packet-concurrent-reads:delivered", len(seen))
+	ctx.CountN("packet-concurrent-reads:sent", senders*perSender)
+	spec := map[string]interface{}{"readers_on_one_handle": readers, "senders": senders, "datagrams_each": perSender}
+	if len(bad) > 0 {
+		ctx.Monitor("C12/packet-concurrent-read-inconsistent", "with several ReadFrom calls outstanding on one handle: "+bad[0], map[string]interface{}{"spec": spec, "more": bad})
+	}
+	if dups > 0 {
+		ctx.Monitor("C12/packet-delivered-twice", fmt.Sprintf("%d datagrams were returned by two ReadFrom calls", dups), spec)
+	}
 }
